@@ -70,6 +70,8 @@ def gen_cfg(rng, focus, solvers=('nm', 'powell', 'de', 'de2')):
         cfg['cost'] = ['array', [round(rng.uniform(-2, 2), 2) for _ in range(dim)]]
         cfg['reducer'] = rng.choice(['sum', 'max', 'mean'])
         cfg['reducer_arraylike'] = rng.random() < 0.7 or cfg['reducer'] == 'mean'
+    # ---- channel: configuration through Set* methods, or through the keywords of the Step call at which it takes effect
+    cfg['channel'] = rng.choice(['set', 'set', 'step_kw'])
     # ---- stop
     if rng.random() < 0.35:
         cfg['limits'] = [rng.choice([0, 1, 2, 3, 5, None]), rng.choice([1, 5, 20, 60, None])]
@@ -134,7 +136,7 @@ class Run(object):
         self.box = {'lo': lo2, 'hi': [float(v) for v in ahi], 'tight': tight, 'clip': clip}
         self.stale = True
 
-    def install_cons(self, s, spec, inplace):
+    def install_cons(self, s, spec, inplace, pending=None):
         real = K.make_constraint(spec, inplace=inplace)
         run = self
         def counted(x):
@@ -142,7 +144,8 @@ class Run(object):
             out = real(x)
             if [float(v) for v in out] != before: run.altered += 1
             return out
-        s.SetConstraints(counted)
+        if pending is None: s.SetConstraints(counted)
+        else: pending['constraints'] = counted              # handed to the next Step call as a keyword
         self.cons = K.ref_constraint(spec)
         self.cons_spec = spec
         self.stale = True
@@ -157,7 +160,11 @@ class Run(object):
         else: s.SetEvaluationLimits(10 ** 6, 10 ** 8)
         s.SetTermination(ChangeOverGeneration(-1.0, 10 ** 6))       # never satisfied: runs are bounded by Step count / limits
         box, cons = cfg.get('box'), cfg.get('cons')
-        if cfg.get('pen') is not None: s.SetPenalty(K.make_penalty(cfg['pen']))
+        bykw = cfg.get('channel') == 'step_kw'
+        pending = {}                                            # keywords for the next Step call (channel 'step_kw')
+        if cfg.get('pen') is not None:
+            if bykw: pending['penalty'] = K.make_penalty(cfg['pen'])
+            else: s.SetPenalty(K.make_penalty(cfg['pen']))
         if cfg.get('reducer'):
             if cfg.get('reducer_arraylike', True): s.SetReducer(MYSTIC_REDUCERS[cfg['reducer']], arraylike=True)
             else: s.SetReducer({'sum': lambda a, b: a + b, 'max': max, 'mean': None}.get(cfg['reducer']) or (lambda a, b: a + b), arraylike=False)
@@ -167,9 +174,10 @@ class Run(object):
             self.install_box(s, box['lo'], box['hi'], box['tight'], box['clip'], box.get('none_entries', False))
             self.box_from_start = True
         if cons and cons['when'] == 0:
-            self.install_cons(s, cons['spec'], cons['inplace'])
+            self.install_cons(s, cons['spec'], cons['inplace'], pending if bykw else None)
             self.cons_from_start = True
-        s.SetObjective(self.probe)
+        if bykw: pending['cost'] = self.probe
+        else: s.SetObjective(self.probe)
         self.stale = False
         kw = K.step_kwargs(cfg)
         gen0 = None
@@ -187,9 +195,13 @@ class Run(object):
                     self.box = None
                 self.install_box(s, ch['lo'], ch['hi'], box['tight'], box['clip'])
             if cons and cons['when'] == step and step > 0:
-                self.install_cons(s, cons['spec'], cons['inplace'])
+                self.install_cons(s, cons['spec'], cons['inplace'], pending if bykw else None)
             ncalls_before = self.probe.n
-            msg = s.Step(**kw)
+            if pending:
+                o.event('configured_by_step_keywords')
+                msg = s.Step(**dict(kw, **pending)); pending = {}
+            else:
+                msg = s.Step(**kw)
             sn = K.snap(s)
             snaps += 1
             o.event('step_boundaries')
